@@ -37,6 +37,7 @@ def run(ctx):
     r71(ctx)
     r72(ctx)
     r73(ctx)
+    r74(ctx)
 
 
 def r71(ctx):
@@ -291,3 +292,10 @@ def r73(ctx):
     for f in ("current_holder_commit_info", "current_counterparty_commit_info"):
         R.named_scenario_refused(ctx, "R7.3", b, [f"`std::option::Option::<T>::is_none(estate.{f})`"],
                                  f"{b.name}/needs/{f}", f"mutual close accepted without {f}")
+
+
+def r74(ctx):
+    ctx.rule("R7.4", "\"afterwards the channel is marked closed\": both mutual-close entry points set channel_closed on every "
+                     "Ok path, persist, and set the flag before the persist call (same obligations as C02 R2.2 for the closers)")
+    from rules import C02 as _c02
+    _c02.closed_flag_rule(ctx, "R7.4", list(_c02.CLOSERS))
